@@ -108,7 +108,32 @@ pub fn gen_pair(t: &mut Tape) -> (Prog, usize, usize) {
     let mut r_elems: Vec<usize> = Vec::new();
     let mut rigid: Vec<(usize, (usize, usize))> = Vec::new();
     for _ in 0..ns {
-        match t.weighted(&[6, 4, 1, 2]) {
+        match t.weighted(&[6, 4, 1, 2, 2]) {
+            4 => {
+                // a character class written as a union of 2-4 ranges (overlapping, adjacent, nested or with
+                // gaps) as one factor of s; in r a range somewhere in its hull — inside one operand, across
+                // two overlapping ones, or reaching into a gap (a union of ranges is not its hull)
+                let k = 2 + t.choose(3);
+                let mut ops = Vec::new();
+                let (mut lo, mut hi) = (n, 0usize);
+                for _ in 0..k {
+                    let (slot, (i, j)) = gen_range_elem(t, &atoms, &mut ins);
+                    ops.push(slot);
+                    lo = lo.min(i);
+                    hi = hi.max(j);
+                }
+                s_elems.push(push(&mut ins, Ins::UnionList(ops.clone())));
+                let r_slot = match t.weighted(&[3, 4, 1]) {
+                    0 => ops[t.choose(ops.len())],
+                    1 => {
+                        let a = lo + t.choose(hi - lo + 1);
+                        let b = a + t.choose(hi - a + 1).min(t.choose(3));
+                        push(&mut ins, Ins::Range(atoms.atoms[a].0, atoms.atoms[b].1))
+                    }
+                    _ => push(&mut ins, Ins::Range(atoms.atoms[lo].0, atoms.atoms[hi].1)),
+                };
+                r_elems.push(r_slot);
+            }
             0 => {
                 // rigid element: a range in s (a third of the time the same range as an earlier rigid
                 // element, so that one occurrence in r can be claimed twice); in r a sub-range / the
